@@ -61,6 +61,8 @@ type SimSCTP struct {
 	tag    int
 	wfault *WriteFault
 	resume chan struct{}
+	dlArm  bool          // the next SetWriteDeadline call parks
+	dlGate chan struct{} // the parked SetWriteDeadline call
 	laddr, raddr net.Addr
 }
 
@@ -174,6 +176,47 @@ func (s *SimSCTP) SCTPWrite(b []byte, info *sctp.SndRcvInfo) (int, error) {
 	}
 	s.writes = append(s.writes, sctpWrite{st, append([]byte{}, b...), s.tag, false})
 	return len(b), nil
+}
+
+// SetWriteDeadline is a scheduling point of the real socket (it takes the descriptor's
+// lock): when armed, the caller parks here until the engine lets it go on. Deadlines
+// themselves are not modelled on the association.
+func (s *SimSCTP) SetWriteDeadline(time.Time) error {
+	s.mu.Lock()
+	if !s.dlArm {
+		s.mu.Unlock()
+		return nil
+	}
+	s.dlArm = false
+	ch := make(chan struct{})
+	s.dlGate = ch
+	s.e.ParkBegin(true)
+	s.mu.Unlock()
+	s.e.Probe("parked-in-set-write-deadline")
+	<-ch
+	return nil
+}
+
+// ArmDeadlinePark makes the next SetWriteDeadline call park.
+func (s *SimSCTP) ArmDeadlinePark() {
+	s.mu.Lock()
+	s.dlArm = true
+	s.mu.Unlock()
+}
+
+// ResumeDeadline disarms the park and releases a caller parked in SetWriteDeadline.
+func (s *SimSCTP) ResumeDeadline() {
+	s.mu.Lock()
+	s.dlArm = false
+	ch := s.dlGate
+	s.dlGate = nil
+	if ch != nil {
+		s.e.ParkEnd(true)
+	}
+	s.mu.Unlock()
+	if ch != nil {
+		close(ch)
+	}
 }
 
 // Resume releases a stalled write.
@@ -589,8 +632,27 @@ func c19RunX(e *Env, wide bool, sw *c19SweepCase, park bool) {
 		batch := append([]deferredAns{}, deferred[:n]...)
 		deferred = deferred[n:]
 		mu.Unlock()
-		be.ArmWriteFault(&WriteFault{Kind: "stall"})
+		// either the first send stalls inside the association, or (with a Server that sets
+		// write deadlines) whoever first reaches SetWriteDeadline is held there: a
+		// stream-unaware write of a server-initiated request made at the same time gets there
+		// on the unchanged tree; answers must not depend on it
+		var rawDone chan struct{}
 		be.SetTag(-1) // attempts are attributed by their marker below
+		if lis != nil && t.Chance(1, 2) {
+			be.ArmDeadlinePark()
+			if t.Chance(2, 3) {
+				req := RefMsg{Cmd: cmdDW, App: 0, Flags: 0x80, HbH: 0x7000 + uint32(len(deferred)), E2E: 0x7001,
+					AVPs: identAVPs("srv.sim", "sim", true, true)}
+				rawBytes := req.Bytes()
+				rawDone = make(chan struct{})
+				cc := batch[0].c
+				go func() { defer close(rawDone); cc.Write(rawBytes) }()
+				e.Quiesce()
+				e.Probe("raw-write-during-answers")
+			}
+		} else {
+			be.ArmWriteFault(&WriteFault{Kind: "stall"})
+		}
 		dones := make([]chan struct{}, n)
 		for i, d := range batch {
 			dones[i] = make(chan struct{})
@@ -608,7 +670,11 @@ func c19RunX(e *Env, wide bool, sw *c19SweepCase, park bool) {
 		e.Act("concurrent-answers", "%d", n)
 		e.Probe("concurrent-deferred-answers")
 		be.Resume()
+		be.ResumeDeadline()
 		e.Quiesce()
+		if rawDone != nil {
+			dones = append(dones, rawDone)
+		}
 		for _, d := range dones {
 			select {
 			case <-d:
@@ -838,6 +904,9 @@ func c19RunX(e *Env, wide bool, sw *c19SweepCase, park bool) {
 			}
 		}
 		for _, a := range raw {
+			if len(a.data) >= 20 && a.data[4]&0x80 != 0 && a.tag <= -1000 {
+				continue // the server-initiated request of flushConcurrent (stream-unaware write; not a reply)
+			}
 			i, ok := byTag[a.tag]
 			if !ok {
 				byTag[a.tag] = len(ws)
